@@ -2,8 +2,8 @@
    Property theorems only: statement, exact, Print Assumptions.  Proofs: proofs/C04P.v, C04Shape.v, C04Values.v, C04Wit.v.
    State: the four classes found on the original tree were repaired in /repo (cdaba75, 936f709, e64e320,
    043e710); the statements about String values and the statement text are _holds statements without a fencing
-   hypothesis.  Two classes are open (5: a search() term is handed to FTS5 as a query expression; 6: a Json default
-   on a row lacking the member is returned as a string). *)
+   hypothesis.  One class is open (5: a search() term is handed to FTS5 as a query expression); class 6 (a Json default
+   on a row lacking the member returned as a string) was repaired in 6a15d74. *)
 From DV Require Import Codec Sql Run_C04 C04P C04Shape C04Values C04Wit.
 
 (* (1) serde_json's string escaping (the _json column) is undone by JSON unescaping, for every text *)
@@ -144,7 +144,11 @@ Example C04_search_nonvacuous : spec_C04 w_search_plain (run_C04 w_search_plain)
 Proof. exact w_search_plain_holds. Qed.
 Print Assumptions C04_search_nonvacuous.
 
-(* (10) the default of a Json field on a row that lacks the member comes back as a JSON string: class 6 (open) *)
-Example C04_json_default_refuted : spec_C04 w_K6_json_default (run_C04 w_K6_json_default) = false /\ known_C04 w_K6_json_default = [6].
-Proof. exact w_K6_json_default_refuted. Qed.
-Print Assumptions C04_json_default_refuted.
+(* (10) the default of a Json field on a row that lacks the member comes back as the JSON value (class 6, repaired in
+        6a15d74; the former witness is replayed on the real code on every run) *)
+Theorem C04_json_default_holds : forall txt d, spec_C04 (CJsonDefault txt d) (run_C04 (CJsonDefault txt d)) = true.
+Proof. exact json_default_holds. Qed.
+Print Assumptions C04_json_default_holds.
+Example C04_json_default_witness_holds : spec_C04 w_K6_json_default (run_C04 w_K6_json_default) = true /\ known_C04 w_K6_json_default = [].
+Proof. exact w_K6_json_default_holds. Qed.
+Print Assumptions C04_json_default_witness_holds.
